@@ -11,6 +11,12 @@ Ops (one text name each):
                  -> the five attributes, the reported type code and what it resolves back to; the model gets
                     the observed attributes (op `code`: TypeName.typeCode / fromName)
 
+  column (+ "explicit")  : FlatColumn(name="c", type=name, element_type=…, precision=…, scale=…, length=…)
+                 vs  TypeName.declareWith (the extracted merge rules / DECIMAL default tests)
+  frame        : DataFrame(rows=[], schema=RelationSchema(columns=[…several columns, with aliases…])).description,
+                 twice, every entry against the column in the same position
+                 vs  TypeName.describe (the extracted lookup: by position / by name)
+
 Oracle (evaluated on the implementation's own outputs, never on the model's):
   total     any text: a well-formed 5-tuple comes back, or ValueError - nothing else;
   exact     a name the generator built as a well-formed type name (label `expect`, re-validated from
@@ -28,9 +34,15 @@ Oracle (evaluated on the implementation's own outputs, never on the model's):
             the column has one).  Not covered: untyped columns (_MISSING_TYPE / 0) and columns whose
             element type is itself ARRAY, DECIMAL or _MISSING_TYPE (not well-formed descriptions).
 
-The model is ASCII.  For non-ASCII names only `total` is evaluated (Python's str.upper, \\d, \\s, \\w
-are Unicode-aware: 'ınteger' and 'DECIMAL(١٠,٢)' resolve, consistently with the statement); when the
-upper-cased name is pure ASCII the model is additionally compared on the upper-cased text.
+  explicit  a parameter given to the constructor next to the type name is carried when the name does not
+            specify that parameter itself (or specifies the same value); zero is a value;
+  frame     in a schema of several columns - whatever their names and aliases, collisions included - the
+            description has one entry per column, entry i bears column i's name, and `typed` holds for
+            entry i against column i; two calls give the same description.
+
+For non-ASCII names the oracle evaluates only `total` (Python's str.upper, \\d, \\s, \\w are Unicode-aware:
+'ınteger' and 'DECIMAL(١٠,٢)' resolve, consistently with the statement); the model (TypeName.fromNameU) is run
+over the interpreter's own Unicode tables, handed over per character (`char_table`).
 """
 import itertools
 import re
@@ -188,16 +200,80 @@ def _describe(c):
     return [col, code, impl_from_name(code)]
 
 
-def impl_column(name):
+def _explicit_kw(x):
+    from orso.types import OrsoTypes
+
+    kw = {}
+    if x.get("element_type") is not None:
+        kw["element_type"] = OrsoTypes[x["element_type"]]
+    for k in ("precision", "scale", "length"):
+        if x.get(k) is not None:
+            kw[k] = x[k]
+    return kw
+
+
+def impl_column(name, explicit=None):
     from orso.schema import FlatColumn
 
     try:
         with warnings.catch_warnings():
             warnings.simplefilter("ignore")
-            c = FlatColumn(name="c", type=name)
+            c = FlatColumn(name="c", type=name, **_explicit_kw(explicit or {}))
     except Exception as e:
         return [["err", _cls(e)], None, None]
     return _describe(c)
+
+
+def _five(c):
+    return ["ok", _ty(c.type), _int(c.length), _int(c.precision), _int(c.scale), _elem(c.element_type)]
+
+
+def impl_frame(case):
+    """Several columns in one RelationSchema: the five attributes of each, the description (twice)."""
+    from orso import DataFrame
+    from orso.schema import FlatColumn, RelationSchema
+    from orso.types import OrsoTypes
+
+    cols, objs = [], []
+    for spec in case["columns"]:
+        kw = {"name": spec["name"], "aliases": list(spec.get("aliases") or [])}
+        kw["type"] = OrsoTypes[spec["enum"]] if "enum" in spec else spec["type"]
+        kw.update(_explicit_kw(spec))
+        try:
+            with warnings.catch_warnings():
+                warnings.simplefilter("ignore")
+                if case.get("via") == "from_dict":
+                    # the second way a schema comes into being: RelationSchema.from_dict -> FlatColumn.from_dict
+                    c = RelationSchema.from_dict({"name": "t", "columns": [kw]}).columns[0]
+                else:
+                    c = FlatColumn(**kw)
+        except Exception as e:
+            cols.append(["err", _cls(e)])
+            continue
+        objs.append(c)
+        cols.append(_five(c))
+    out = {"cols": cols, "desc": None, "back": None, "why": None, "stable": True}
+    if len(objs) != len(cols):
+        out["why"] = "a column could not be declared"
+        return out
+    try:
+        with warnings.catch_warnings():
+            warnings.simplefilter("ignore")
+            df = DataFrame(rows=[], schema=RelationSchema(name="t", columns=objs))
+            d1 = df.description
+            d2 = df.description
+    except Exception as e:
+        out["why"] = "description raised " + _cls(e)
+        return out
+    ok = isinstance(d1, list) and all(isinstance(e, tuple) and len(e) == 7 for e in d1)
+    if not ok:
+        out["why"] = "description is not a list of 7-tuples"
+        return out
+    out["stable"] = d1 == d2
+    out["desc"] = [[e[0], e[1] if (e[1] is None or isinstance(e[1], str)) else {"__other__": repr(e[1])[:80]},
+                    _int(e[4]), _int(e[5])] for e in d1]
+    out["back"] = [impl_from_name(e[1]) if isinstance(e[1], str) else None for e in d1]
+    return out
 
 
 def impl_column_enum(case):
@@ -374,6 +450,8 @@ def typed_column_clause(out):
         return None  # untyped column (or the int 0 marker): not covered
     if elem is not None and (not isinstance(elem, str) or elem in NOT_COVERED_ELEMS):
         return None  # not a well-formed description: not covered
+    if t == "DECIMAL" and not (isinstance(precision, int) and isinstance(scale, int) and 0 <= scale <= precision <= MAX_P):
+        return None  # DECIMAL parameters given explicitly out of range: not a well-formed description either
     if out[1] is None:
         return "DataFrame.description reports no type code for a typed column (%s)" % (out[3] if len(out) > 3 else "None")
     back = out[2]
@@ -408,14 +486,73 @@ def enum_clause(case, out):
     return typed_column_clause(out)
 
 
+SLOT = {"length": 2, "precision": 3, "scale": 4, "element_type": 5}
+
+
+def explicit_clause(case, out):
+    """A parameter given to the constructor is carried when the name itself does not specify that
+    parameter (or specifies the same value).  What the name specifies is read off the implementation's own
+    from_name.  A conflicting pair (name says 10, argument says 0) is left to the correspondence."""
+    col = out[0]
+    x = case.get("explicit") or {}
+    if col[0] != "ok" or not x:
+        return None
+    parsed = impl_from_name(case["name"])
+    if parsed[0] != "ok":
+        return None
+    for k, i in SLOT.items():
+        v = x.get(k)
+        if v is None:
+            continue
+        if parsed[i] is None or parsed[i] == v:
+            if col[i] != v:
+                return "column does not carry the explicitly given %s" % ("precision/scale" if k in ("precision", "scale") else k.replace("_", " "))
+    return None
+
+
+def frame_clause(case, out):
+    cols = out["cols"]
+    if any(c[0] != "ok" for c in cols):
+        return None  # a column could not be declared: the `column` op deals with that
+    if out["desc"] is None:
+        if all(isinstance(c[1], str) for c in cols):
+            return "DataFrame.description of a schema of declared columns failed (%s)" % out["why"]
+        return None  # a column whose type is the int 0 has no `.value`: not covered
+    desc = out["desc"]
+    if len(desc) != len(cols):
+        return "DataFrame.description does not have one entry per column"
+    for spec, e in zip(case["columns"], desc):
+        if e[0] != spec["name"]:
+            return "an entry of DataFrame.description does not bear the name of the column in its position"
+    if not out["stable"]:
+        return "DataFrame.description differs between two calls on the same frame"
+    for c, e, back in zip(cols, desc, out["back"]):
+        one = [c, e[1] if isinstance(e[1], str) else None, back, "type code %r" % (e[1],)]
+        clause = typed_column_clause(one)
+        if clause:
+            return "in a schema of several columns: " + clause
+    return None
+
+
 def oracle(case, out):
     op = case["op"]
     if op == "column_enum":
         return enum_clause(case, out)
     if op == "column_arrow":
         return typed_column_clause(out)
+    if op == "frame":
+        return frame_clause(case, out)
     name = case["name"]
     e = case.get("expect")
+    if op == "column" and case.get("explicit"):
+        c = explicit_clause(case, out)
+        if c:
+            return c
+        if out[1] is not None:
+            c = total_clause(out[2])
+            if c:
+                return "type code: " + c
+        return typed_column_clause(out)
     if op == "from_name":
         c = total_clause(out)
         if c:
@@ -438,6 +575,13 @@ def oracle(case, out):
 # --------------------------------------------------------------------------- evaluation
 
 
+def _valid_explicit(x):
+    if x.get("element_type") is not None and x["element_type"] not in BASE + [UNTYPED_MEMBER]:
+        return False
+    return all(x.get(k) is None or (isinstance(x[k], int) and not isinstance(x[k], bool) and x[k] >= 0)
+               for k in ("precision", "scale", "length"))
+
+
 def valid_case(c):
     if isinstance(c, dict) and c.get("op") == "column_enum":
         if c.get("type") not in BASE + [UNTYPED_MEMBER]:
@@ -452,8 +596,35 @@ def valid_case(c):
             return True
         except Exception:
             return False
+    if isinstance(c, dict) and c.get("op") == "frame":
+        cols = c.get("columns")
+        if not isinstance(cols, list) or len(cols) > 200 or c.get("via") not in (None, "from_dict"):
+            return False
+        for spec in cols:
+            if not isinstance(spec, dict) or not isinstance(spec.get("name"), str):
+                return False
+            al = spec.get("aliases", [])
+            if not isinstance(al, list) or not all(isinstance(a, str) for a in al):
+                return False
+            if ("enum" in spec) == ("type" in spec):
+                return False
+            if "enum" in spec and spec["enum"] not in BASE + [UNTYPED_MEMBER]:
+                return False
+            if "type" in spec and not isinstance(spec["type"], str):
+                return False
+            if not _valid_explicit(spec):
+                return False
+            try:
+                (spec["name"] + "".join(al) + spec.get("type", "")).encode("utf-8")
+            except UnicodeEncodeError:
+                return False
+        return True
     if not isinstance(c, dict) or c.get("op") not in ("from_name", "column") or not isinstance(c.get("name"), str):
         return False
+    if "explicit" in c:
+        if c["op"] != "column" or not isinstance(c["explicit"], dict) or not _valid_explicit(c["explicit"]) \
+                or set(c["explicit"]) - set(SLOT) or c.get("expect") is not None:
+            return False
     try:
         c["name"].encode("utf-8")
     except UnicodeEncodeError:
@@ -471,12 +642,41 @@ def model_name(name):
     return u if is_ascii(u) else None
 
 
+_ROWS = {}
+
+
+def char_table(name):
+    """What the interpreter under test does with each character of `name` (and of its upper-casings):
+    [char, char.upper(), matches \\d, matches \\s, matches \\w, decimal value] - the model's `Chars`."""
+    import unicodedata
+
+    chars, todo = set(), set(name)
+    while todo:
+        ch = todo.pop()
+        if ch in chars:
+            continue
+        chars.add(ch)
+        todo |= set(ch.upper()) - chars
+    rows = []
+    for ch in sorted(chars):
+        r = _ROWS.get(ch)
+        if r is None:
+            d = re.fullmatch(r"\d", ch) is not None
+            r = [ch, ch.upper(), d, re.fullmatch(r"\s", ch) is not None, re.fullmatch(r"\w", ch) is not None,
+                 unicodedata.decimal(ch, 0) if d else 0]
+            _ROWS[ch] = r
+        rows.append(r)
+    return rows
+
+
 def run_impl(c):
     if c["op"] == "column_enum":
         return impl_column_enum(c)
     if c["op"] == "column_arrow":
         return impl_column_arrow(c)
-    return impl_from_name(c["name"]) if c["op"] == "from_name" else impl_column(c["name"])
+    if c["op"] == "frame":
+        return impl_frame(c)
+    return impl_from_name(c["name"]) if c["op"] == "from_name" else impl_column(c["name"], c.get("explicit"))
 
 
 def evaluate_declared(ctx, cases):
@@ -484,9 +684,13 @@ def evaluate_declared(ctx, cases):
     attributes and must report the same type code and the same resolution of it."""
     outs = [run_impl(c) for c in cases]
     idx, lines = [], []
-    for i, out in enumerate(outs):
+    for i, (c, out) in enumerate(zip(cases, outs)):
         col = out[0]
-        if col[0] == "ok" and all(not isinstance(x, dict) for x in col):
+        if c["op"] == "column_enum":
+            # the model declares the column itself (TypeName.declareEnum: the extracted DECIMAL defaults)
+            idx.append(i)
+            lines.append("C06 enum " + wire.line(c["type"], c.get("element_type"), c.get("precision"), c.get("scale"), c.get("length")))
+        elif col[0] == "ok" and all(not isinstance(x, dict) for x in col):
             idx.append(i)
             lines.append("C06 code " + wire.line(*col[1:]))
     mouts = dict(zip(idx, ctx.model.batch(lines)))
@@ -505,7 +709,65 @@ def evaluate_declared(ctx, cases):
             m = wire.dec_all(mouts[i][3:])
         if clause is not None:
             ctx.fail(c, clause, impl=out, model=m)
-        elif m is not None and not wire.same(_plain(out[1:3]), _plain(m)):
+        elif m is not None and not wire.same(_plain(out[:3] if c["op"] == "column_enum" else out[1:3]), _plain(m)):
+            ctx.disagree(c, out, m)
+
+
+def _frame_plain(out):
+    """Are the observed attributes of every column plain values the model can be given?"""
+    return all(col[0] == "ok" and not any(isinstance(x, dict) for x in col) for col in out["cols"])
+
+
+def evaluate_frames(ctx, cases):
+    outs = [run_impl(c) for c in cases]
+    idx, lines = [], []
+    for i, (c, out) in enumerate(zip(cases, outs)):
+        if not _frame_plain(out):
+            continue
+        cols = [[sp["name"], list(sp.get("aliases") or [])] + col[1:] for sp, col in zip(c["columns"], out["cols"])]
+        idx.append(i)
+        lines.append("C06 describe " + wire.line(cols))
+    mouts = dict(zip(idx, ctx.model.batch(lines)))
+    for i, (c, out) in enumerate(zip(cases, outs)):
+        n = len(c["columns"])
+        ctx.case(c, nontrivial=n > 0)
+        ctx.hit("op:frame")
+        ctx.hit("frame-built-by:" + (c.get("via") or "FlatColumn(...)"))
+        ctx.hit("frame-columns:" + (str(n) if n < 4 else "4-9" if n < 10 else "10+"))
+        names = [sp["name"] for sp in c["columns"]]
+        coll_later = any(names[i_] in (c["columns"][j].get("aliases") or []) for i_ in range(n) for j in range(i_ + 1, n))
+        coll_earlier = any(names[i_] in (c["columns"][j].get("aliases") or []) for i_ in range(n) for j in range(i_))
+        if coll_later:
+            ctx.hit("frame:later-column-alias-equals-earlier-name")
+        if coll_earlier:
+            ctx.hit("frame:earlier-column-alias-equals-later-name")
+        if len(set(names)) < n:
+            ctx.hit("frame:two-columns-same-name")
+        if any(sp.get("aliases") for sp in c["columns"]) and not (coll_later or coll_earlier):
+            ctx.hit("frame:aliases-without-collision")
+        ctx.hit("frame-outcome:" + ("described" if out["desc"] is not None else (out["why"] or "none")))
+        clause = oracle(c, out)
+        m = None
+        if i in mouts:
+            ctx.hit("compared-with-model")
+            if not mouts[i].startswith("ok "):
+                raise InfraError("model rejected case %r: %r" % (c, mouts[i]))
+            m = wire.dec_all(mouts[i][3:])[0]
+        if clause is not None:
+            c_min = c
+            if not ctx.replaying:
+                words = {w for sp in c["columns"] for w in [sp["name"], sp.get("type")] + list(sp.get("aliases") or [])}
+
+                def still(c2):
+                    # keep the names, aliases and type names whole: a replay should read like a schema
+                    if not (valid_case(c2) and c2.get("op") == "frame"):
+                        return False
+                    if any(w not in words for sp in c2["columns"] for w in [sp["name"], sp.get("type")] + list(sp.get("aliases") or [])):
+                        return False
+                    return oracle(c2, run_impl(c2)) == clause
+                c_min = shrink(c, still, budget=400)
+            ctx.fail(c_min, clause, impl=run_impl(c_min), model=m if c_min is c else None)
+        elif m is not None and not wire.same(_plain(out["desc"]), _plain(m)):
             ctx.disagree(c, out, m)
 
 
@@ -516,13 +778,24 @@ def evaluate(ctx, cases):
     declared = [c for c in cases if c["op"] in ("column_enum", "column_arrow")]
     if declared:
         evaluate_declared(ctx, declared)
-        cases = [c for c in cases if c["op"] not in ("column_enum", "column_arrow")]
+    frames = [c for c in cases if c["op"] == "frame"]
+    if frames:
+        evaluate_frames(ctx, frames)
+    cases = [c for c in cases if c["op"] in ("from_name", "column")]
     idx, lines = [], []
     for i, c in enumerate(cases):
         mn = model_name(c["name"])
-        if mn is not None:
+        if c["op"] == "from_name" and not is_ascii(c["name"]):
+            # any Python str: the model runs over the interpreter's own Unicode tables (TypeName.fromNameU)
             idx.append(i)
-            lines.append("C06 %s %s" % (c["op"], wire.line(mn)))
+            lines.append("C06 from_name_u " + wire.line(c["name"], char_table(c["name"])))
+        elif mn is not None:
+            idx.append(i)
+            x = c.get("explicit")
+            if x:
+                lines.append("C06 column_x " + wire.line(mn, x.get("element_type"), x.get("precision"), x.get("scale"), x.get("length")))
+            else:
+                lines.append("C06 %s %s" % (c["op"], wire.line(mn)))
     mouts = dict(zip(idx, ctx.model.batch(lines)))
     for i, c in enumerate(cases):
         name = c["name"]
@@ -530,7 +803,12 @@ def evaluate(ctx, cases):
         ctx.case(c, nontrivial=len(name) > 0)
         ctx.hit("op:" + c["op"])
         ctx.hit("label:" + (c["expect"]["kind"] if c.get("expect") else "none"))
-        ctx.hit("ascii" if is_ascii(name) else ("unicode-ascii-upper" if i in mouts else "unicode"))
+        if c.get("explicit"):
+            ctx.hit("column-with-explicit-parameters")
+            if any(v == 0 for v in c["explicit"].values()):
+                ctx.hit("column-with-explicit-zero")
+        ctx.hit("ascii" if is_ascii(name) else ("unicode-through-the-interpreters-tables" if c["op"] == "from_name" else
+                                                 "unicode-ascii-upper" if i in mouts else "unicode"))
         first = out if c["op"] == "from_name" else out[0]
         ctx.hit("outcome:" + (first[0] if first[0] != "err" else "err:" + first[1]))
         if not is_ascii(name) and first[0] == "ok":
@@ -690,6 +968,10 @@ def exhaustive_cases(ctx):
     # 7. columns built from Arrow fields (FlatColumn.from_arrow), incl. lists of unmapped value types
     for spec in ARROW_SPECS:
         yield {"op": "column_arrow", "arrow": spec}
+    # 8. a type name next to explicit constructor arguments (none / zero / a value for each)
+    yield from explicit_cases(thorough)
+    # 9. schemas of several columns whose names and aliases collide in every way
+    yield from frame_cases(thorough)
 
 
 ARROW_SPECS = ["int8", "int32", "int64", "uint16", "float32", "float64", "bool", "string", "large_string", "binary", "date32",
@@ -727,6 +1009,132 @@ def enum_cases(thorough):
             yield enum_case("DECIMAL", precision=p, scale=s)
     for s in range(min(decimal.getcontext().prec, MAX_P) + 1):
         yield enum_case("DECIMAL", scale=s)
+
+
+EXPLICIT_NAMES = ["DECIMAL", "decimal", "DECIMAL(10,2)", "DECIMAL(0,0)", "DECIMAL(38,38)", "VARCHAR", "VARCHAR[5]", "varchar[0]",
+                  "BLOB", "BLOB[0]", "ARRAY", "ARRAY<INTEGER>", "array<varchar>", "LIST", "INTEGER", "NUMERIC", "VARIANT",
+                  "_MISSING_TYPE", "STRING", "DECIMAL(5,6)"]
+
+
+def explicit_cases(thorough):
+    """A type name together with explicit constructor arguments: every combination of none / zero / a value."""
+    # first the arguments that belong to the type (so that a replay reads naturally), then the full product
+    for name in ("DECIMAL", "decimal", "NUMERIC"):
+        for p in (0, 1, 10, 38):
+            yield {"op": "column", "name": name, "explicit": {"precision": p}}
+            for q in (0, 1, p):
+                if q <= p:
+                    yield {"op": "column", "name": name, "explicit": {"precision": p, "scale": q}}
+        for q in (0, 3, 21):
+            yield {"op": "column", "name": name, "explicit": {"scale": q}}
+    for name in ("VARCHAR", "BLOB", "varchar", "VARCHAR[5]", "BLOB[0]"):
+        for n in (0, 1, 5, 255):
+            yield {"op": "column", "name": name, "explicit": {"length": n}}
+    for name in ("LIST", "list", "ARRAY", "ARRAY<INTEGER>", "array<varchar>"):
+        for e in SCALAR:
+            yield {"op": "column", "name": name, "explicit": {"element_type": e}}
+    ps = [None, 0, 1, 10, 38]
+    ss = [None, 0, 2]
+    ls = [None, 0, 7]
+    es = [None, "INTEGER", "VARCHAR"] + (["ARRAY", "DECIMAL", UNTYPED_MEMBER] if thorough else [])
+    for name in EXPLICIT_NAMES:
+        for p in ps:
+            for q in ss:
+                for n in ls:
+                    for e in es:
+                        x = {k: v for k, v in (("precision", p), ("scale", q), ("length", n), ("element_type", e)) if v is not None}
+                        if x:
+                            yield {"op": "column", "name": name, "explicit": x}
+
+
+FRAME_TYPES = [{"type": "INTEGER"}, {"type": "DECIMAL(10,2)"}, {"type": "DECIMAL(38,0)"}, {"type": "decimal(5,5)"},
+               {"type": "DECIMAL(0,0)"}, {"type": "VARCHAR"}, {"type": "VARCHAR[12]"}, {"type": "ARRAY<INTEGER>"},
+               {"type": "array<varchar>"}, {"type": "LIST"}, {"type": "ARRAY"}, {"type": "DOUBLE"}, {"type": "BLOB[3]"},
+               {"type": "TIMESTAMP"}, {"type": "NUMERIC"}, {"enum": "DECIMAL", "precision": 0}, {"enum": "DECIMAL", "scale": 3},
+               {"enum": "ARRAY", "element_type": "DATE"}, {"enum": "ARRAY"}, {"enum": "JSONB"}, {"enum": UNTYPED_MEMBER}]
+
+# names and aliases of two columns: no aliases; the LATER column has the earlier one's name as an alias;
+# the EARLIER column has the later one's name as an alias; both; the same name twice; unrelated aliases;
+# a column with its own name as an alias; each has both names; names that differ in case only
+FRAME_PATTERNS = [
+    (("a", []), ("b", [])), (("a", []), ("b", ["a"])), (("a", ["b"]), ("b", [])), (("a", ["b"]), ("b", ["a"])),
+    (("a", []), ("a", [])), (("a", ["x"]), ("b", ["y"])), (("a", ["a"]), ("b", ["b"])), (("a", ["b", "a"]), ("b", ["a", "b"])),
+    (("a", []), ("A", ["a"])), (("a", ["x"]), ("b", ["x"])), (("", ["b"]), ("b", [""])), (("é", []), ("b", ["é"])),
+]
+
+
+def _col(name, aliases, ty):
+    c = {"name": name, "aliases": list(aliases)}
+    c.update(ty)
+    return c
+
+
+def frame_cases(thorough):
+    """Schemas of several columns: every pair of type forms under every name/alias pattern, collisions
+    in every position of three columns, wide schemas whose aliases chain forwards and backwards, empty."""
+    types = FRAME_TYPES if thorough else FRAME_TYPES[:15] + FRAME_TYPES[17:18]
+    for (n0, a0), (n1, a1) in FRAME_PATTERNS:
+        for t0 in types:
+            for t1 in types:
+                if thorough or t0 != t1 or (n0, a0, n1, a1) == ("a", [], "b", []):
+                    yield {"op": "frame", "columns": [_col(n0, a0, t0), _col(n1, a1, t1)]}
+                    if thorough or (types.index(t0) + types.index(t1)) % 4 == 0:
+                        yield {"op": "frame", "via": "from_dict", "columns": [_col(n0, a0, t0), _col(n1, a1, t1)]}
+    yield {"op": "frame", "columns": []}
+    for t in FRAME_TYPES:
+        yield {"op": "frame", "columns": [_col("a", [], t)]}
+        yield {"op": "frame", "columns": [_col("a", ["a", "b"], t)]}
+    # three columns: the colliding pair in every position, the third column unrelated / colliding too
+    three = [{"type": "INTEGER"}, {"type": "DECIMAL(10,2)"}, {"type": "ARRAY<DATE>"}, {"type": "VARCHAR[3]"}, {"enum": "DECIMAL", "precision": 0}]
+    for i in range(3):
+        for j in range(3):
+            if i == j:
+                continue
+            for k, t3 in enumerate(three):
+                names = ["a", "b", "c"]
+                aliases = [[], [], []]
+                aliases[j] = [names[i]]          # column j answers to column i's name as well
+                tys = [three[(k + d) % len(three)] for d in range(3)]
+                yield {"op": "frame", "columns": [_col(names[x], aliases[x], tys[x]) for x in range(3)]}
+                aliases2 = [[names[(x + 1) % 3]] for x in range(3)]   # a cycle of aliases
+                yield {"op": "frame", "columns": [_col(names[x], aliases2[x], tys[x]) for x in range(3)]}
+    # wide: every DECIMAL(p,s) once / every ARRAY<T> once; aliases chain forwards, backwards, all the same
+    dec = [{"type": "DECIMAL(%d,%d)" % (p, q)} for p in range(0, MAX_P + 1, 3) for q in range(0, p + 1, 4)]
+    arr = [{"type": "ARRAY<%s>" % t} for t in SCALAR] + [{"type": t} for t in BASE]
+    for tys in (dec, arr):
+        n = len(tys)
+        nm = ["c%d" % i for i in range(n)]
+        yield {"op": "frame", "columns": [_col(nm[i], [], tys[i]) for i in range(n)]}
+        yield {"op": "frame", "columns": [_col(nm[i], [nm[(i + 1) % n]], tys[i]) for i in range(n)]}
+        yield {"op": "frame", "columns": [_col(nm[i], [nm[i - 1]], tys[i]) for i in range(n)]}
+        yield {"op": "frame", "columns": [_col(nm[i], ["k"], tys[i]) for i in range(n)]}
+        yield {"op": "frame", "columns": [_col("k", [], tys[i]) for i in range(n)]}
+
+
+def random_frame(rng):
+    pool = ["a", "b", "c", "A", "é", "", "k"]
+    n = rng.choice([1, 2, 2, 3, 3, 4, 6, 9])
+    cols = []
+    for _ in range(n):
+        r = rng.random()
+        if r < 0.25:
+            p = rng.randint(0, MAX_P)
+            ty = {"type": rng.choice(["DECIMAL(%d,%d)", "decimal(%d, %d)"]) % (p, rng.randint(0, p))}
+        elif r < 0.4:
+            ty = {"type": "%s<%s>" % (rng.choice(["ARRAY", "array", "Array"]), rng.choice(SCALAR + [s_.lower() for s_ in SCALAR]))}
+        elif r < 0.5:
+            ty = {"type": rng.choice(BASE + ["LIST", "NUMERIC", "BSON", "list", "VARCHAR[%d]" % rng.randint(0, 99)])}
+        elif r < 0.6:
+            ty = {"enum": "DECIMAL", "precision": rng.choice([None, 0, rng.randint(0, MAX_P)])}
+            ty = {k: v for k, v in ty.items() if v is not None}
+        else:
+            ty = dict(rng.choice(FRAME_TYPES))
+        aliases = [rng.choice(pool) for _ in range(rng.choice([0, 0, 1, 1, 2]))]
+        cols.append(_col(rng.choice(pool), aliases, ty))
+    c = {"op": "frame", "columns": cols}
+    if rng.random() < 0.3:
+        c["via"] = "from_dict"
+    return c
 
 
 def random_declared(rng):
@@ -830,6 +1238,17 @@ def random_cases(ctx, n):
         if i % 25 == 24:
             out.append(random_declared(ctx.rng))
             continue
+        if i % 25 in (7, 19):
+            out.append(random_frame(ctx.rng))
+            continue
+        if i % 50 == 3:
+            x = {k: v for k, v in (("precision", ctx.rng.choice([None, 0, 5, 38])), ("scale", ctx.rng.choice([None, 0, 5])),
+                                    ("length", ctx.rng.choice([None, None, 0, 9])),
+                                    ("element_type", ctx.rng.choice([None, None] + SCALAR))) if v is not None}
+            nm = ctx.rng.choice(EXPLICIT_NAMES + seeds())
+            if x and is_ascii(nm):
+                out.append({"op": "column", "name": nm, "explicit": x})
+                continue
         name = random_name(ctx)
         try:
             name.encode("utf-8")
@@ -867,20 +1286,47 @@ def check_tables(ctx):
     return base, scalar
 
 
+def check_unicode_assumptions(ctx):
+    """`Chars.Sane` (the hypotheses of the *_unicode theorems), checked on the interpreter under test over the whole
+    code space: `\\d` is str.isdecimal and `\\s` is str.isspace in CPython's re (spot-checked below)."""
+    both = [i for i in range(0x110000) if chr(i).isdecimal() and chr(i).isspace()]
+    sample = [chr(i) for i in list(range(0, 0x3000, 7)) + [0x0660, 0x06F0, 0x0966, 0xFF10, 0x1D7CE, 0x85, 0xA0, 0x2028, 0x3000]]
+    same = all((re.fullmatch(r"\d", ch) is not None) == ch.isdecimal() and (re.fullmatch(r"\s", ch) is not None) == ch.isspace()
+               for ch in sample)
+    ok = (not both and same and re.fullmatch(r"[\w\s]", ">") is None and not ",".isdecimal() and not ")".isdecimal()
+          and "<" in "<".upper() and all(len(chr(i).upper()) >= 1 for i in (0xDF, 0x131, 0x149, 0xFB01)))
+    try:
+        int("1" * (max_digits() + 1) if max_digits() else "1")
+        over = "no limit" if not max_digits() else "accepted"
+    except ValueError:
+        over = "ValueError"
+    except Exception as e:  # pragma: no cover
+        over = type(e).__name__
+    ctx.note("unicode_tables_sane", {"no_char_is_digit_and_space": not both, "re_classes_are_str_predicates_on_sample": same,
+                                     "int_beyond_digit_limit": over, "all": ok and over in ("ValueError", "no limit")})
+    if not ok or over not in ("ValueError", "no limit"):
+        raise InfraError("the interpreter's Unicode tables do not meet the assumptions of the *_unicode theorems")
+
+
 def run(ctx):
     ctx.note("rule", "one text name per case, run through OrsoTypes.from_name or FlatColumn+DataFrame.description and through the "
              "Lean model; non-trivial = non-empty name; distinct by canonical JSON of (op, name, label)")
     ctx.note("assumptions", [
         "the untyped marker (int 0, returned for '0'/'VARIANT'/'MISSING') with no parameters counts as a resolved description",
         "lengths n are rendered with at most sys.get_int_max_str_digits() digits (CPython's int() refuses longer digit strings with ValueError)",
-        "non-ASCII names: only the totality clause is evaluated; the model is ASCII",
+        "non-ASCII names: the oracle evaluates the totality clause only (labels are ASCII); the model runs over the interpreter's own "
+        "Unicode tables (per-character upper(), \\d/\\s/\\w membership, decimal value), whose sanity (Chars.Sane) is checked at run time",
     ])
     ctx.note("trusted_base_extra", [
-        "the vocabulary definitions TName/render/wfName/denotes/wfOut/columnRoundTrips in lean/OrsoVerif/Model/TypeName.lean (the theorems are stated through them)",
-        "modelled, validated by correspondence only: the four prefix matchers hand-written from the four regular expressions, "
-        "Python's re / str.upper / int() on ASCII text, the FlatColumn and DataFrame.description glue; non-ASCII text is outside the model",
+        "the vocabulary definitions TName/render/wfName/denotes/wfOut/columnRoundTrips/Chars/Chars.Sane in lean/OrsoVerif/Model/TypeName.lean "
+        "and Lemmas/TypeName.lean (the theorems are stated through them)",
+        "modelled, validated by correspondence only: that Python's re computes the greedy, backtrack-free match of a pattern whose repeats "
+        "cannot take a character the next item needs (the patterns themselves are parsed from the source with re._parser and interpreted; "
+        "patterns_deterministic proves the side condition), str.upper as a per-character map, int() on a run of \\d characters, "
+        "the FlatColumn constructor outside its merge block, DataFrame.column_names",
     ])
     check_tables(ctx)
+    check_unicode_assumptions(ctx)
     total = _run_batched(ctx, exhaustive_cases(ctx))
     ctx.exhaustive = False
     ctx.note("exhaustive_scope", "every letter-case pattern of the %d base names; aliases; DECIMAL(p,s) for (p,s) in 0..45 x 0..45; "
